@@ -7,8 +7,11 @@ VERIF = os.path.dirname(os.path.dirname(os.path.abspath(__file__)))
 REPO = os.environ.get("VERIF_REPO", "/repo")
 SPEC = os.path.join(VERIF, "spec")
 HARNESS = os.path.join(VERIF, "harness")
-OUT = os.path.join(VERIF, "out")
-EVID = os.path.join(VERIF, "evidence")
+# experiments on a deliberately changed tree (bin/seedrun, bin/seedall) write elsewhere: the committed evidence and
+# replay files always describe /repo as it stands
+_alt = os.environ.get("VERIF_ALT_OUT")
+OUT = os.path.join(_alt, "out") if _alt else os.path.join(VERIF, "out")
+EVID = os.path.join(_alt, "evidence") if _alt else os.path.join(VERIF, "evidence")
 TLA_CP = "/opt/veriftools/tla/tla2tools.jar:/opt/veriftools/tla/CommunityModules-deps.jar"
 NPROC = os.cpu_count() or 4
 
@@ -318,6 +321,7 @@ class Report:
                            "comparisons": stats.get("compared", 0), "refused": stats.get("refused", 0),
                            "open": stats.get("open", 0), "by_op": stats.get("by_op", {}),
                            "refused_ops": stats.get("refused_ops", {}), "divergences": len(divs),
+                           "level2_strides_agree": stats.get("l2_agree", 0), "level2_strides_differ": stats.get("l2_differ", 0),
                            # circumstance tags: executions in which each occurred / compared to the end and agreed / diverged
                            "circumstances": {t: [n, stats.get("tag_pass", {}).get(t, 0), stats.get("tag_div", {}).get(t, 0)]
                                              for t, n in sorted(stats.get("tag_n", {}).items())}})
